@@ -315,9 +315,11 @@ def run_jobs(jobs, workdir, parallel=None):
     with ThreadPoolExecutor(parallel) as ex:
         list(ex.map(lambda j: _run_job(j, workdir), jobs))
     # a watchdog expiry is inconclusive: re-run once from a fresh process before anything is reported
-    retry = [j for j in jobs if j.timed_out]
+    # (driver time limit, or the harness's own watchdog leaving with exit code 4 = "stalled, but neither provably asleep nor provably spinning")
+    retry = [j for j in jobs if j.timed_out or (j.rc == 4 and not (j.result or {}).get("violations_total"))]
     for j in retry:
-        log("job %s timed out after %.0fs; re-running once" % (j.tag, j.wall))
+        log("job %s %s after %.0fs; re-running once" % (j.tag, "timed out" if j.timed_out else "ended inconclusive (watchdog, exit 4)", j.wall))
+        j.first_attempt = "timed out" if j.timed_out else "exit 4"
         _run_job(j, workdir)
     return jobs
 
